@@ -64,7 +64,7 @@ var opGen = rapid.Custom(func(t *rapid.T) Op {
 		op.Body = rapid.SampledFrom([]string{"plain text\r\n", "two\r\nlines\r\n", "", "http://example.com/ link\r\n"}).Draw(t, "body")
 	case 3, 4, 5, 6:
 		op.K = "http"
-		op.Verb = rapid.SampledFrom([]string{"list", "show", "source", "uisource", "uimsg", "uihtml", "seen", "seen", "seenfalse", "seenjunk", "delete", "delete", "purge"}).Draw(t, "verb")
+		op.Verb = rapid.SampledFrom([]string{"list", "show", "source", "uisource", "uimsg", "uihtml", "seen", "seen", "seenfalse", "seenjunk", "delete", "delete", "purge", "uiattach", "uiattach"}).Draw(t, "verb")
 	default:
 		op.K = "client"
 		op.Verb = rapid.SampledFrom([]string{"list", "get", "source", "seen", "seen", "delete", "purge", "hget", "hsource", "hdelete"}).Draw(t, "cverb")
@@ -334,6 +334,20 @@ func run(c Case) *hx.Outcome {
 					fail("source", "%s: status %d", where, code)
 				} else if op.Verb != "uihtml" && !bytes.Equal(b, model[box][idx].src) {
 					fail("response-differs", "%s: %d bytes, the stored source has %d", where, len(b), len(model[box][idx].src))
+				}
+			case "uiattach":
+				// attachment download of the web UI: the generated messages have no attachments, so every
+				// number is out of range or malformed; whatever it is, the handler must answer
+				nums := []string{"0", "1", "-1", "x", "", "007", "4294967295", "4294967296", "9223372036854775807", "9223372036854775808", "18446744073709551615", "99999999999999999999"}
+				for _, num := range nums {
+					code, _, err := doHTTP("GET", "/serve/mailbox/"+ep+"/"+eid+"/attach/"+num+"/file.bin", "")
+					if err != nil {
+						fail("transport", "%s: attachment %q: %v (the handler dropped the connection)", where, num, err)
+						break
+					}
+					if code == 200 {
+						fail("phantom-attachment", "%s: attachment %q of a message without attachments was answered 200", where, num)
+					}
 				}
 			case "seen", "seenfalse", "seenjunk":
 				body := map[string]string{"seen": `{"seen":true}`, "seenfalse": `{"seen":false}`, "seenjunk": `{"seen":`}[op.Verb]
